@@ -50,7 +50,7 @@ fn node(ctx: &mut Ctx, t: &mut Tree, p: &Pos, b: &Board, path: &[Mv], special: b
         }
         c
     };
-    ctx.current = Some(case(None));
+    ctx.set_case(case(None));
     let h = b.get_hash();
     let d = digest(b);
     // from-scratch constructions of the same position
@@ -141,6 +141,7 @@ fn rec(ctx: &mut Ctx, t: &mut Tree, p: &Pos, b: &Board, path: &mut Vec<Mv>, spec
 /// One case: root position (start + prefix moves) and a complete reference-move tree below it.
 pub fn check_tree(ctx: &mut Ctx, start: &Pos, prefix: &[Mv], depth: usize, cap: u64) -> Result<(), Violation> {
     let mut p = start.clone();
+    ctx.set_case(json!({"start": start.fen(), "moves": []}));
     let mut b = match gen::lib_start(start) {
         Some(b) => b,
         None => {
